@@ -12,7 +12,7 @@ Import ListNotations.
 Open Scope Z_scope.
 
 Inductive transport := TPipe | TTcp | TUdp.
-Inductive kind := KUndecided | KMatchRead | KEmptyFbRead | KNonTermUndecided.
+Inductive kind := KUndecided | KMatchRead | KEmptyFbRead | KNonTermUndecided | KNonTermReadUndecided.
 Inductive oclass := OTimeout | OFull | ONetErr | ORan | OFallback | ONone.
 Inductive hres := RdNone | RdOk | RdFail.
 
@@ -46,6 +46,8 @@ Definition arrivals (tr : transport) (sends : list (Z * Z)) : list (Z * list byt
 Definition undecided_routes : list route := [Route [[MPrim (thr (Z.to_nat 1048576) Yes)]] [HTerm]].
 (* a route without matchers that passes the connection on, then one that never decides *)
 Definition nonterm_undecided_routes : list route := [Route [] []; Route [[MPrim (thr (Z.to_nat 1048576) Yes)]] [HTerm]].
+(* ... whose non-terminal handler first reads two bytes *)
+Definition nonterm_read_undecided_routes : list route := [Route [] [HCons 2]; Route [[MPrim (thr (Z.to_nat 1048576) Yes)]] [HTerm]].
 Definition matchread_routes : list route := [Route [[MPrim (thr 1 Yes)]] [HCons 2; HTerm]].
 
 Definition run_model (tr : transport) (k : kind) (timeout : Z) (n : tnet) : res tnet :=
@@ -55,6 +57,7 @@ Definition run_model (tr : transport) (k : kind) (timeout : Z) (n : tnet) : res 
   | KUndecided => serve tnet tnow sd rd tpush (need_rs undecided_routes) undecided_routes timeout (st_init n)
   | KMatchRead => serve tnet tnow sd rd tpush (need_rs matchread_routes) matchread_routes timeout (st_init n)
   | KNonTermUndecided => serve tnet tnow sd rd tpush (need_rs nonterm_undecided_routes) nonterm_undecided_routes timeout (st_init n)
+  | KNonTermReadUndecided => serve tnet tnow sd rd tpush (need_rs nonterm_read_undecided_routes) nonterm_read_undecided_routes timeout (st_init n)
   | KEmptyFbRead =>
       compile tnet tnow sd rd tpush (need_rs []) 0 [] timeout
         (chain tnet tnow rd tpush (compile tnet tnow sd rd tpush (need_rs [])) 0 0 [HCons 2] (fun s => Cont s)) (st_init n)
